@@ -25,6 +25,7 @@ var allKinds = run.AllKinds
 func C01(tier string) int {
 	c := report.NewCollector("C01")
 	cases := explore.Cases(explore.CaseOpts{Tier: tier, Prefixes: true, Edits: true, Seqs: true})
+	cases = append(cases, jsonCases(tier)...)
 	explore.HangHook = func(item string) {
 		c.Add(&report.Violation{Clause: "nontermination", Site: "watchdog", Detail: "a call made no progress for 120s: " + item, Check: "sweep"})
 	}
